@@ -8,7 +8,9 @@ package verifrt
 // BudgetExceeded is the sentinel panic raised when a budget is exhausted.
 type BudgetExceeded struct{ What, Where string }
 
-func (b BudgetExceeded) Error() string { return "verifrt budget exceeded: " + b.What + " in " + b.Where }
+func (b BudgetExceeded) Error() string {
+	return "verifrt budget exceeded: " + b.What + " in " + b.Where
+}
 
 var (
 	// MaxActive bounds the live activations of any single instrumented function (0 = off).
@@ -16,9 +18,9 @@ var (
 	// MaxSteps bounds loop iterations + function entries per execution (0 = off).
 	MaxSteps int
 
-	active    = map[string]int{}
-	Steps     int
-	StepsSeen int // high-water mark over executions (calibration)
+	active     = map[string]int{}
+	Steps      int
+	StepsSeen  int // high-water mark over executions (calibration)
 	ActiveSeen int
 )
 
